@@ -10,6 +10,14 @@ import sys
 import tempfile
 
 MUTANTS = {
+    'C16': [
+        ('err-counter-none', 'dashlive/server/requesthandler/base.py', "value = (flask.session.get(key) or 0) + 1", "value = flask.session.get(key, 0) + 1"),
+        ('err-count-ge', 'dashlive/server/requesthandler/media_requests.py', "self.increment_error_counter(content_type, code) > options.failureCount", "self.increment_error_counter(content_type, code) >= options.failureCount"),
+        ('err-pos-eq', 'dashlive/server/requesthandler/media_requests.py', "            if pos != seg_num:\n                continue\n            if (", "            if pos == seg_num:\n                continue\n            if ("),
+        ('err-no-reset', 'dashlive/server/requesthandler/media_requests.py', "                self.reset_error_counter(content_type, code)\n                continue", "                continue"),
+        ('err-lists', 'dashlive/server/requesthandler/media_requests.py', "        if content_type == 'audio':\n            errs = options.audioErrors", "        if content_type == 'video':\n            errs = options.audioErrors"),
+        ('err-count-4xx', 'dashlive/server/requesthandler/media_requests.py', "                    code >= 500 and\n                    options.failureCount is not None and\n                    self.increment", "                    code >= 400 and\n                    options.failureCount is not None and\n                    self.increment"),
+    ],
     'C20': [
         ('seek-no-upper-clamp', 'dashlive/utils/buffered_reader.py', '            self.pos = min(self.pos, self.size)\n', '            pass\n'),
         ('seek-end-sign', 'dashlive/utils/buffered_reader.py', '            self.pos = self.size + offset\n', '            self.pos = self.size - offset\n'),
